@@ -33,6 +33,15 @@ def build_file(name, fps, arrangement, fill, regime, final_nl, bom=False, blank_
     lines.append([("t", head)])
     if blank_edges:
         lines.insert(0, [("t", "")])
+    if arrangement == "edges":
+        # the occurrence is the whole first line and the whole last line (no filler around it); with final_nl False the
+        # file ends in the occurrence itself
+        lines = [[("o", fps[0])], [("t", F[2])], [("o", fps[-1])]]
+        n = len(lines)
+        seps = sep_list(regime, n - 1)
+        return pt.FileSpec(name, list(fps), lines, seps, sep_list(regime, n)[-1] if final_nl else "")
+    if arrangement == "single-line":
+        return pt.FileSpec(name, list(fps), [[("t", F[0] + " "), ("o", fps[0])]], [], sep_list(regime, 1)[0] if final_nl else "")
     if arrangement == "own-lines":
         for k, fp in enumerate(fps):
             pre = "" if fp.anchor_l else ("value: " if k % 2 == 0 else "\t- ")
